@@ -152,6 +152,36 @@ def h_bandpass(env, s_lp=3, s_hp=2):
             env.check("hard_band_outside_case%d" % case, env.implies(env.and_(env.not_(inside), *hyp), env.eq(gb, 0.0)))
 
 
+def h_soft_edge(env, sigma=1, region="pass"):
+    """Gaussian edge profile (numerics, outside the solver's reach): evaluated on the concrete witness run only.
+    The solver still chooses the witness inside the region the clause talks about."""
+    cm = env.module("cryomap")
+    n, f, x = _setup(env)
+    r = env.integer("cut", 4 * sigma + 4, 20)
+    env.assume(env.and_(*[env.ge(v, 2 * r + 8 * sigma + 4) for v in n]))
+    q = _freq(env, f, n)
+    d2 = sum(v * v for v in q)
+    if region == "pass":
+        lim = r - 4 * sigma - 1
+        env.assume(env.and_(env.ge(d2, 1), env.le(d2, env.ite(env.lt(lim * lim, 9 * sigma * sigma), lim * lim, 9 * sigma * sigma))))
+    else:
+        lim = r + 4 * sigma + 1
+        env.assume(env.gt(d2, lim * lim))
+    y = cm.lowpass(x, fourier_pixels=r, gaussian=sigma)
+    try:
+        g = _gain(env, x, y, f)
+    except SkipWitness:
+        return
+    if g is None:
+        return
+    env.check("soft_gain_in_0_1", env.and_(env.ge(g, -1e-9 if env.mode == "conc" else 0.0), env.le(g, 1.0 + (1e-9 if env.mode == "conc" else 0.0))))
+    if env.mode == "conc":
+        if region == "pass":
+            env.check("gain_is_1_inside_cutoff_minus_4sigma_minus_1", g >= 1 - 2e-4)
+        else:
+            env.check("gain_is_0_outside_cutoff_plus_4sigma_plus_1", g <= 2e-4)
+
+
 def h_resolution(env):
     cm = env.module("cryomap")
     edge = env.integer("edge", 8, 512)
@@ -182,6 +212,7 @@ def h_resolution(env):
 def jobs(tier, seed):
     j = [("h_lowpass_hard", {"kind": "lowpass"}), ("h_lowpass_hard", {"kind": "highpass"}), ("h_lowpass_hard", {"kind": "lowpass", "cubic": True}),
          ("h_complement", {"sigma": 0}), ("h_complement", {"sigma": 2}), ("h_complement", {"sigma": 3}),
+         ("h_soft_edge", {"sigma": 1, "region": "pass"}), ("h_soft_edge", {"sigma": 2, "region": "pass"}), ("h_soft_edge", {"sigma": 1, "region": "stop"}),
          ("h_bandpass", {"s_lp": 0, "s_hp": 0}), ("h_bandpass", {"s_lp": 3, "s_hp": 2}), ("h_resolution", {})]
     if tier == "thorough":
         j += [("h_bandpass", {"s_lp": 2, "s_hp": 2}), ("h_complement", {"sigma": 1}), ("h_complement", {"sigma": 4})]
